@@ -237,6 +237,8 @@ func vRunOne(path string) (res vNativeResult) {
 		if r := recover(); r != nil {
 			if _, ok := r.(vUnmetAssumption); ok {
 				res.Unmet = vUnmet
+			} else if _, ok := r.(vStopped); ok {
+				// harness bound reached: not a failure
 			} else {
 				res.Panic = fmt.Sprint(r)
 			}
